@@ -225,6 +225,11 @@ class Walker:
         st.truth[c.get("n")] = truth
         if c.get("k") == "Un" and c["op"] == "!":
             return self.assume(st, c["a"][0], not truth)
+        if c.get("k") == "Paren":
+            return self.assume(st, c["a"][0], truth)
+        if c.get("k") == "Bin" and ((c["op"] == "&&" and truth) or (c["op"] == "||" and not truth)):
+            # a conjunction that the CFG did not split (it came out of a flag): both sides hold
+            return self.assume(st, c["a"][0], truth) and self.assume(st, c["a"][1], truth)
         if c.get("k") == "Ref":
             fl = st.user.get("$flags", {}).get(pp(c))
             if fl is not None:
